@@ -53,6 +53,29 @@ impl<P, B: RingBuf<Item = P>> Buf<P> for B {
     }
 }
 
+/// User defined backing arrays (the documented way to get lengths that the crate does not cover):
+/// lengths above 64 that are not powers of two.
+macro_rules! user_array {
+    ($name:ident, $n:literal) => {
+        pub struct $name<P>([P; $n]);
+        unsafe impl<P> futures_intrusive::buffer::RealArray<P> for $name<P> {
+            const LEN: usize = $n;
+        }
+        impl<P> AsMut<[P]> for $name<P> {
+            fn as_mut(&mut self) -> &mut [P] {
+                &mut self.0
+            }
+        }
+        impl<P> AsRef<[P]> for $name<P> {
+            fn as_ref(&self) -> &[P] {
+                &self.0
+            }
+        }
+    };
+}
+user_array!(Arr100, 100);
+user_array!(Arr384, 384);
+
 fn make<P: Payload>(kind: &str, cap: usize) -> Box<dyn Buf<P>> {
     macro_rules! arr {
         ($($n:literal),*) => {
@@ -64,6 +87,11 @@ fn make<P: Payload>(kind: &str, cap: usize) -> Box<dyn Buf<P>> {
     }
     match kind {
         "array" => arr!(0, 1, 2, 3, 4, 5, 7, 8, 16),
+        "user" => match cap {
+            100 => Box::new(ArrayBuf::<P, Arr100<P>>::new()),
+            _ => Box::new(ArrayBuf::<P, Arr384<P>>::new()),
+        },
+        "huge" => Box::new(ArrayBuf::<P, [P; 65536]>::new()),
         "arraywc" => match cap {
             // with_capacity must ignore its argument for array buffers
             2 => Box::new(ArrayBuf::<P, [P; 2]>::with_capacity(17)),
@@ -87,6 +115,8 @@ pub struct RbCore<P: Payload> {
     wrapped: bool,
     fp: u64,
     growing: bool,
+    /// very large buffers: tags are not tracked individually (the counter tables are smaller)
+    huge: bool,
 }
 
 impl<P: Payload> RbCore<P> {
@@ -97,9 +127,11 @@ impl<P: Payload> RbCore<P> {
         ctx.check("C19", "len-is_empty-can_push-capacity-consistent", true, len == m && empty == (m == 0) && can == (m < self.cap) && cap == self.cap, || {
             format!("len()={} is_empty()={} can_push()={} capacity()={} but {} elements stored, capacity {}", len, empty, can, cap, m, self.cap)
         });
-        for t in &self.model {
-            let d = payload::drops(*t);
-            ctx.check("C19", "stored-element-not-dropped", true, d == 0, || format!("stored tag {} has drop count {}", t, d));
+        if !self.huge {
+            for t in &self.model {
+                let d = payload::drops(*t);
+                ctx.check("C19", "stored-element-not-dropped", true, d == 0, || format!("stored tag {} has drop count {}", t, d));
+            }
         }
         let mut f = Fp::new();
         f.add(m as u64);
@@ -116,9 +148,12 @@ impl<P: Payload> RbCore<P> {
             "fixednew" | "growingnew" => 0,
             "arraywc" => if cap_arg == 2 { 2 } else { 3 },
             "array" => if [0, 1, 2, 3, 4, 5, 7, 8, 16].contains(&cap_arg) { cap_arg } else { 64 },
+            "user" => if cap_arg == 100 { 100 } else { 384 },
+            "huge" => 65536,
             _ => cap_arg,
         };
-        let base = payload::reserve(4000);
+        let huge = cap > 1000;
+        let base = if huge { 1 } else { payload::reserve(4000) };
         let mut c = RbCore {
             buf: Some(buf),
             cap,
@@ -130,6 +165,7 @@ impl<P: Payload> RbCore<P> {
             wrapped: false,
             fp: 0,
             growing: kind.starts_with("growing"),
+            huge,
         };
         let mut ctx = Ctx::new();
         ctx.track_distinct = false;
@@ -138,7 +174,7 @@ impl<P: Payload> RbCore<P> {
     }
 
     fn enabled(&self, out: &mut Vec<Ev>) {
-        if self.model.len() < self.cap && ((self.next - self.base) as usize) < if cfg!(miri) { 300 } else { 3900 } {
+        if self.model.len() < self.cap && (self.huge || ((self.next - self.base) as usize) < if cfg!(miri) { 300 } else { 3900 }) {
             out.push(Ev::new(PUSH, 0, 0));
         }
         if !self.model.is_empty() {
@@ -154,7 +190,7 @@ impl<P: Payload> RbCore<P> {
         let (al, de) = if P::ALLOCATES || self.growing { (u64::MAX, u64::MAX) } else { (0, 0) };
         match ev.k {
             PUSH => {
-                let t = self.next;
+                let t = if self.huge { 1 + (self.next % 60_000) } else { self.next };
                 self.next += 1;
                 let v = P::new(t);
                 let b = self.buf.as_mut().unwrap();
@@ -171,7 +207,7 @@ impl<P: Payload> RbCore<P> {
                     let want = self.model.pop_front();
                     let got = v.tag();
                     ctx.check("C19", "pop-returns-oldest-element", true, Some(got) == want, || format!("pop() returned tag {} expected {:?}", got, want));
-                    let d = payload::drops(got);
+                    let d = if self.huge { 0 } else { payload::drops(got) };
                     ctx.check("C19", "popped-element-not-dropped-by-buffer", true, d == 0, || format!("popped tag {} already has drop count {}", got, d));
                     // keep a few popped elements alive across the buffer's drop
                     if self.popped.len() < 4 {
@@ -190,6 +226,10 @@ impl<P: Payload> RbCore<P> {
         let wrapped = self.wrapped;
         let b = self.buf.take().unwrap();
         call_p(ctx, "C19", "ringbuf-drop", u64::MAX, u64::MAX, move || drop(b));
+        if self.huge {
+            self.popped.clear();
+            return;
+        }
         for t in &stored {
             let d = payload::drops(*t);
             ctx.check("C19", "buffer-drop-drops-every-stored-element-exactly-once", true, d == 1, || {
@@ -232,10 +272,29 @@ impl Driver for RingbufDriver {
             for k in ["fixednew", "growingnew"] {
                 v.push(format!("buf={},cap=0,payload={}", k, payload));
             }
+            v.push(format!("buf=user,cap=100,payload={}", payload));
+            v.push(format!("buf=user,cap=384,payload={}", payload));
             v.push(format!("buf=arraywc,cap=2,payload={}", payload));
             v.push(format!("buf=arraywc,cap=3,payload={}", payload));
         }
+        if !cfg!(miri) {
+            v.push("buf=huge,cap=65536,payload=val".to_string());
+        }
         v
+    }
+    fn scenarios(cfg: &str) -> Vec<Vec<Ev>> {
+        // fill the buffer completely (counter widths, index wrap at the very end), rotate, refill
+        let cap = match (cfg_get(cfg, "buf"), cfg_num(cfg, "cap", 0)) {
+            (Some("huge"), _) => 65536,
+            (Some("user"), c) => c as usize,
+            (Some("array"), 64) => 64,
+            _ => return vec![],
+        };
+        let mut s = vec![Ev::new(PUSH, 0, 0); cap];
+        s.extend(vec![Ev::new(POP, 0, 0); cap / 2 + 3]);
+        s.extend(vec![Ev::new(PUSH, 0, 0); cap / 2 + 3]);
+        s.extend(vec![Ev::new(POP, 0, 0); 5]);
+        vec![s]
     }
     fn new(cfg: &str, _k: usize, _bounded: bool) -> Self {
         if cfg_get(cfg, "payload") == Some("bval") {
